@@ -98,8 +98,9 @@ def crc_legacy(msg: str, encode: bool = False) -> int:
         # perform XOR, when 1
         msgnpbin[i : i + ng] = np.bitwise_xor(msgnpbin[i : i + ng], generator)
 
-    # last 24 bits
-    msgbin = np.array2string(msgnpbin[-24:], separator="")[1:-1]
+    # last 24 bits (joined here rather than with np.array2string, whose
+    # output follows the print options the application may have set)
+    msgbin = "".join(str(int(b)) for b in msgnpbin[-24:])
     reminder = bin2int(msgbin)
 
     return reminder
